@@ -77,7 +77,7 @@ def _limit(prop_text):
                 technique="explicit-time TLA+ spec + TLC (incl. edge cover of the state graph as schedules); lock-step traces validated by TLC (Trace_Limit) and judged by the TLA+ monitor Mon_Limit")
 
 CHECKS.update({
- "C04": _limit("TLC checks the structural invariants (batch starts >= Interval apart, <= Quantity per batch) and, in a tiny configuration with the full emission history, the cumulative and pairwise window formulas; Apalache: LimitInd.tla proves the cumulative bound and the spacing of batch starts inductive for every Quantity, Interval and instant (twins mirroring seeded changes must fail); an edge cover of the state graph plus seeded profiles (prefilled, trickle, stall-then-burst, slow consumer, 40+ intervals) are replayed lock-step into the real limit discipline; Mon_Limit applies the cumulative and the all-pairs window formula to the exact virtual emission instants."),
+ "C04": _limit("TLC checks the structural invariants (batch starts >= Interval apart, <= Quantity per batch) and, in a tiny configuration with the full emission history, the cumulative and pairwise window formulas; several disciplines fed from ONE input channel judged by Mon_LimitShared (each its own bound); Apalache: LimitInd.tla proves the cumulative bound and the spacing of batch starts inductive for every Quantity, Interval and instant (twins mirroring seeded changes must fail); an edge cover of the state graph plus seeded profiles (prefilled, trickle, stall-then-burst, slow consumer, 40+ intervals) are replayed lock-step into the real limit discipline; Mon_Limit applies the cumulative and the all-pairs window formula to the exact virtual emission instants."),
  "C12": _limit("TLC checks order/losslessness, closed => everything forwarded, inClosed ~> outClosed under fairness (with vacuity twins) and the exact schedule with everything available up-front; Mon_Limit decides on recorded traces: received = written prefix, closes only after the input closed and everything was forwarded, closes by the virtual deadline, element j at exactly (j div Q)*I with a ready consumer, fewer than Quantity elements without any pause, and for every arrival pattern element j > Q leaves no later than max(written, element j-1 left, element j-Q left + Interval)."),
 })
 
